@@ -31,7 +31,8 @@ def _clauses(items, default_props=()):
 
 
 class LoopSpec:
-    def __init__(self, invariant=(), modifies=(), decreases=None, ghost_init=None, unroll=None):
+    def __init__(self, invariant=(), modifies=(), decreases=None, ghost_init=None, unroll=None, axioms=()):
+        self.axioms = _clauses(axioms)
         self.unroll = unroll      # complete unrolling up to N iterations, with an unwinding assertion (no invariant needed)
         self.invariant = _clauses(invariant)
         self.modifies = [ast.parse(m.strip(), mode="eval").body if isinstance(m, str) else m for m in modifies]
@@ -44,7 +45,7 @@ class Contract:
                  types=None, returns=None, trusted=False, inline=False, pure=False, variant=None,
                  may_suspend=False, notes="", self_type=None, env=None, assume_no_raise=(), ghost=(),
                  pre_lemmas=(), post_lemmas=(), verify=True, call_inline=False, abstract=False, yields=None,
-                 rely=(), rely_havoc=(), cancellable=False, ghost_exit=(), hints=()):
+                 rely=(), rely_havoc=(), cancellable=False, ghost_exit=(), hints=(), axioms=()):
         self.qualname = qualname
         self.props = tuple(props)
         self.requires = _clauses(requires, props)
@@ -72,6 +73,7 @@ class Contract:
         self.rely_havoc = [ast.parse(m.strip(), mode="eval").body for m in rely_havoc]
         self.cancellable = cancellable
         self.ghost_exit = list(ghost_exit)
+        self.axioms = _clauses(axioms)          # valid axiom instances (sum axioms) assumed at entry and at every exit
         self.hints = _clauses(hints, props)     # Dafny-style asserts at entry: proved, then assumed
 
     @property
